@@ -18,7 +18,7 @@ RULE = (
     "hypothesis rule-based state machine over a pool of 3-6 generated well-formed messages (biased to commands/responses with "
     "encrypted parameter areas of different command codes, plus structures and streams); rules: decode message i to the end "
     "(strict / warn / as stream / via Canonical), open a step-wise decode of i, advance open decode j by k events, finish j, "
-    "convert a finished event list to objects. Invariant over the history: every finished result for (bytes, arguments) == the first "
+    "convert a finished event list to objects, decode message i in a worker thread; plus a sweep that decodes one message for every encryptable parameter layout (102) three times in one process. Invariant over the history: every finished result for (bytes, arguments) == the first "
     "result recorded for that key (event lists and objects compared with ==, and as plain tuples), encrypted parameter layouts of "
     "equal origin are the identical class; a sample of first results is compared with a decode in a fresh interpreter. Non-trivial = "
     "history contains A, B, A with encrypted areas of different parameter types or >= 2 simultaneously open decodes; distinct = history."
@@ -110,6 +110,24 @@ class Engine:
             except StopIteration as stop:
                 obj = stop.value
             self._finished(i, mode, events, obj, "full")
+        elif kind == "thread":
+            # the same full decode, run to its end in a worker thread of this process
+            import concurrent.futures
+
+            _, i, mode = s
+
+            def work():
+                g = self._marshal(i, mode)
+                events = []
+                try:
+                    while True:
+                        events.append(next(g))
+                except StopIteration as stop:
+                    return events, stop.value
+
+            with concurrent.futures.ThreadPoolExecutor(max_workers=1) as ex:
+                events, obj = ex.submit(work).result()
+            self._finished(i, mode, events, obj, "worker-thread")
         elif kind == "open":
             _, i, mode = s
             self.open.append([i, mode, self._marshal(i, mode), []])
@@ -207,10 +225,39 @@ def fresh_interpreter_tuples(p):
     return json.loads(out.stdout.strip().splitlines()[-1])
 
 
+def layout_sweep(ctx, L, pool):
+    """Every synthesized encrypted parameter layout in one process: decode one message per layout, then all of them again
+    (and once more in reverse order); each later result must equal the first one for the same message."""
+    e = Engine(ctx, L, pool)
+    order = list(range(len(pool)))
+    for rnd, seq in enumerate((order, order, order[::-1])):
+        for i in seq:
+            e.step(("full", i, "strict"))
+        if rnd == 0:
+            for i in order[:: max(1, len(order) // 10)]:
+                e.step(("objs", i))
+    ctx.case(b"sweep" + b"|".join(p["data"] for p in pool[:8]), True, sample={"layout_sweep": len(pool), "first": [(p["type"], p["cc"]) for p in pool[:4]]})
+    ctx.count("layout-sweep-messages", len(pool))
+
+
 def run_shard(ctx):
     L = layout()
     q = ctx.quick()
     fresh_budget = [2 if q else 10]
+    # (a) sweep over all encryptable layouts (61 command + 41 response parameter areas in the pinned layout)
+    if ctx.shard < 2 or not q:
+        collected = []
+        names = sorted(L.commands)
+        if ctx.shard % 2:
+            names = names[::-1]
+        for cc in names:
+            e_ = L.commands[cc]
+            if L.first_param_is_tpm2b(e_["command_params"]):
+                ctx.run_given(gen.commands(L, cc, sessions=1, decrypt=True, rare=False), collected.append, 1, name=f"sweep:cmd:{cc}")
+            if L.first_param_is_tpm2b(e_["response_params"]):
+                ctx.run_given(gen.responses(L, cc, sessions=1, enc=True, failed=False, rare=False), collected.append, 1, name=f"sweep:rsp:{cc}")
+        pool = [{"type": c.type, "data": c.data, "cc": c.cc, "enc": bool(c.enc), "encrypted_area": True} for c in collected]
+        ctx.run_plain(lambda: layout_sweep(ctx, L, pool), "layout-sweep")
 
     class Machine(RuleBasedStateMachine):
         def __init__(self):
@@ -225,6 +272,10 @@ def run_shard(ctx):
         @rule(i=st.integers(0, 5), mode=st.sampled_from(["strict", "warn"]))
         def full(self, i, mode):
             self.e.step(("full", i % len(self.e.pool), mode))
+
+        @rule(i=st.integers(0, 5), mode=st.sampled_from(["strict", "warn"]))
+        def in_thread(self, i, mode):
+            self.e.step(("thread", i % len(self.e.pool), mode))
 
         @rule(i=st.integers(0, 5), mode=st.sampled_from(["strict", "warn"]))
         def open_(self, i, mode):
